@@ -163,11 +163,17 @@ def make_pool(rng: PlanRng):
         pool[f"x{k}a"] = sig(rng.uniform(0.5, 3.0, k))
         pool[f"x{k}b"] = sig(rng.uniform(0.5, 3.0, k))
         pool[f"U{k}"] = sig(rng.uniform(0.05, 0.95, (5, k)))   # fractions of the bound range
+        if k >= 2:
+            mix = rng.uniform(1.0, 6.0, k)
+            mix[rng.integers(0, k - 1)] = np.inf           # finite and infinite mixed: rejected
+            pool[f"ubmix{k}"] = sig(mix)
+        pool[f"xbad{k}"] = sig(rng.uniform(0.5, 3.0, k + 1))   # wrong length: rejected
         X = rng.uniform(0.0, 6.0, (6, k))
         X[0] = rng.uniform(0.0, 0.04, k)       # below every positive lb
         X[1] = rng.uniform(10.5, 12.0, k)      # above every finite ub
         pool[f"X{k}"] = sig(X)
     # spectra
+    pool["Sbad"] = sig(rng.uniform(0.1, 1.0, (2, n_dom + 1)))   # wrong domain length: rejected
     pool["bg0"] = sig(rng.uniform(0.5, 2.0, n_dom))
     pool["bg1"] = sig(rng.uniform(0.5, 2.0, n_dom))
     pool["sig"] = sig(rng.uniform(0.0, 2.0, (3, n_dom)))
@@ -210,6 +216,8 @@ class Sym:
 def sym_apply(sym: Sym, op, meta):
     """Advance the symbolic state; return False if `op` is not valid here."""
     m = op["m"]
+    if op.get("reject"):
+        return sym.has_sys or m == "register_system"
     if m == "register_system":
         sym.has_sys = True
         k = meta["n_src"][op["sources"]]
@@ -395,6 +403,14 @@ def apply_mutator(est, op, pool):
 
 SOLVER_QUERIES = {"fit", "fit_underdetermined", "minimize_variance", "fit_adaptive",
                   "fit_decomposition", "range_of_solutions"}
+
+
+def process_state():
+    """Process-global settings a query could change behind the caller's back and that decide
+    whether later calls raise: the warning filters and numpy's floating-point error state."""
+    return {"warnings.filters": [(f[0], getattr(f[1], "pattern", f[1]), f[2],
+                                  getattr(f[3], "pattern", f[3]), f[4]) for f in warnings.filters],
+            "numpy.geterr": dict(np.geterr())}
 
 
 def derive_args(est_ref, pool, meta, n_src):
@@ -596,7 +612,7 @@ def random_query(rng: PlanRng, meta, solver_ok=True, slow_ok=True):
     return rng.choice(cheap)()
 
 
-def random_mutator(rng: PlanRng, sym: Sym, meta, first=False):
+def random_mutator(rng: PlanRng, sym: Sym, meta, first=False, allow_reject=False):
     kind = meta["kind"]
     k = sym.n_src
 
@@ -645,7 +661,22 @@ def random_mutator(rng: PlanRng, sym: Sym, meta, first=False):
     def m_fit():
         return {"m": "fit"}
 
+    def m_reject():
+        # a registration the library rejects (raises): nothing may have been registered
+        c = rng.choice(["bounds_mixed", "sysadapt_len", "system_len"] if (k or 0) >= 2
+                       else ["sysadapt_len", "system_len"])
+        if c == "bounds_mixed":
+            return {"m": "register_bounds", "lb": rng.choice([None, "lbs", f"lb{k}a"]),
+                    "ub": f"ubmix{k}", "reject": True}
+        if c == "sysadapt_len":
+            return {"m": "register_system_adaptation", "x": f"xbad{k}", "add_baseline": True,
+                    "add": rng.coin(0.5), "reject": True}
+        return {"m": "register_system", "sources": "Sbad", "domain": None, "lb": None,
+                "ub": "ubs0", "reject": True}
+
     opts = [(m_adapt, 2.0), (m_base, 2.0), (m_bg, 2.0), (m_system, 2.5 if sym.has_sys else 8.0)]
+    if sym.has_sys and allow_reject:
+        opts += [(m_reject, 1.0)]
     if sym.has_sys:
         opts += [(m_bounds, 3.0), (m_sysad, 2.0), (m_targets, 2.5)]
     if sym.has_tgt:
@@ -773,7 +804,7 @@ def generate(rs, mode, tier, index):
         ops = []
         muts = 0
         while muts < n_mut:
-            op = random_mutator(rng, sym, meta)
+            op = random_mutator(rng, sym, meta, allow_reject=(mode == "faults"))
             # bias: immediately re-register the same kind (dead write) or revisit it later
             s2 = sym.copy()
             if not sym_apply(s2, op, meta):
@@ -913,9 +944,17 @@ def execute(plan):
             qpool = dict(pool, **derive_args(copy.deepcopy(cs.nf_master), pool, meta, n_src))
         if overlay is not None:
             qpool = dict(qpool, **overlay)
+        g0 = process_state()     # taken before either object runs the query
         r_ref = call(run_query, ref_obj, q, qpool, n_src)
         if faulted_outcome is None:
             r_h = call(run_query, cs.est, q, qpool, n_src)
+            g1 = process_state()
+            if g0 != g1:
+                raise Violation(ID, "query_changed_process_state",
+                                f"{q['q']} changed process-global settings that later answers "
+                                f"depend on (warning filters / numpy error state): "
+                                f"{[k_ for k_ in g0 if g0[k_] != g1[k_]]}",
+                                query=q, where=where, client=cs.client["id"])
         else:
             r_h = faulted_outcome
         check_pool(f"query {q['q']} ({where})")
@@ -945,6 +984,24 @@ def execute(plan):
                 bump("fault:rng_perturb")
                 cov_parts["faults"].add("rng_perturb")
                 log.add(cid, "x:rng_perturb", op["k"])
+                continue
+            if "m" in op and op.get("reject"):
+                # a registration the library must reject; whatever it does, a call that raised
+                # has registered nothing, so every answer must be what it was before
+                op_call = {k_: v_ for k_, v_ in op.items() if k_ != "reject"}
+                out = call(apply_mutator, cs.est, op_call, pool)
+                check_pool(f"rejected {op['m']}")
+                log.add(cid, "m!:" + op["m"], out)
+                if out.ok:
+                    # the tree under test accepts these arguments: it registered something this
+                    # model does not describe; stop following this client (not a C14 matter)
+                    cs.alive = False
+                    bump("rejected_registration_was_accepted")
+                    continue
+                bump("fault:rejected_registration")
+                cov_parts["faults"].add("rejected_registration")
+                for bq in plan["battery"]:
+                    compare_query(cs, bq, f"battery after rejected {op['m']} at step {step}")
                 continue
             if "m" in op:
                 s2 = cs.sym.copy()
